@@ -4,18 +4,21 @@ from .common import *
 from ..callgraph import node_writes
 
 EXPLANATION = (
-    "Decides three structural necessary conditions of C16 and nothing else: (1) equality and hashing "
+    "Decides four structural necessary conditions of C16 and nothing else: (1) equality and hashing "
     "are both defined through absolutePath() (so they agree with absolute-path equality); (2) every "
     "member function or constructor of CgroupPath that modifies the component vector or the fs root - "
     "on its own object or on a local copy it returns - calls recomputeReadCache() on that object after "
     "its last such modification on every path to the return, given that absolutePath()/relativePath() "
     "are plain getters of the cache fields (if that precondition changes the rule reports 'analysis "
     "broken'); (3) resolveWildcard emits a result only for glob results that start with the fs root and "
-    "either equal it or continue with '/', and strips exactly root + '/'.  Canonical form, the "
+    "either equal it or continue with '/', and strips exactly root + '/'; (4) the prekill-hook pattern match reads only the component vectors, returns false "
+    "only on a mismatch of a common component whose pattern component is not '*', and true after the "
+    "common prefix (this fixes the three-case relation for the implementation as written; a different "
+    "algorithm is reported, not judged).  Canonical form, the "
     "parent/child inverse law, the three-case pattern relation, glob(3) exactness and comma splitting "
     "are statements about string values and are not decided - this is the bulk of the property.")
 RULE_SUMMARY = "expression shape of operator== and std::hash, class-invariant recompute rule (E-PATH must-follow per modified object), guard dominance in resolveWildcard"
-NOT_DECIDED = ["canonical form of paths (slashes, empties)", "getChild/getParent inverse law", "the three-case prefix pattern relation",
+NOT_DECIDED = ["canonical form of paths (slashes, empties)", "getChild/getParent inverse law", "the three-case pattern relation for an algorithm other than the component loop",
                "exactness of glob(3) resolution", "comma splitting of the cgroup argument"]
 ASSUMPTIONS = ["std::hash<std::string> and operator== on std::string are consistent"]
 
@@ -124,6 +127,36 @@ def run(ctx):
     reads = {n.get("qname") for n in rcf.nodes if n["k"] == "member"}
     ctx.check(bool(wa) and bool(wr) and set(FIELDS) <= reads, "recompute-rebuilds-both-caches", "field-write", rcf.loc(), "recomputeReadCache rebuilds both caches from the components and the root",
               "recomputeReadCache does not rebuild both caches from cgroup_path_ and cgroup_fs_")
+    # ---- (4) pattern match decided component-wise
+    hm = ctx.fn1("Oomd::CgroupPath::hasDescendantWithPrefixMatching")
+    ctx.anchor(hm, "pattern")
+    fh = Flow(P, hm, cg=cg)
+    other = sorted({n_.get("qname", "").split("::")[-1] for n_ in hm.nodes if n_["k"] == "member" and n_.get("dk") == "field" and n_.get("qname") != "Oomd::CgroupPath::cgroup_path_"})
+    strcalls = [hm.text(i) for i in hm.calls("CgroupPath::absolutePath", "CgroupPath::relativePath")]
+    ctx.check(not other and not strcalls, "pattern-match:reads-components-only", "field-read", hm.loc(),
+              "the pattern match reads only the component vectors of path and pattern ('*' can only stand for a whole component)",
+              "the pattern match reads %s: a decision on the joined strings has no component boundaries (web.service2 would match web.service)" % (other + strcalls))
+    for r in returns(hm):
+        t = ret_text(hm, r)
+        g = fh.guards(r)
+        if t == "false":
+            star = any(p is False and k in ('("*" == pattern.cgroup_path_[i])', '(pattern.cgroup_path_[i] == "*")') for k, p in g)
+            diff = any(p is False and k in ("(pattern.cgroup_path_[i] == this->cgroup_path_[i])", "(this->cgroup_path_[i] == pattern.cgroup_path_[i])") for k, p in g) or \
+                any(p is True and k in ("(pattern.cgroup_path_[i] != this->cgroup_path_[i])", "(this->cgroup_path_[i] != pattern.cgroup_path_[i])") for k, p in g)
+            inb = any(p is True and k.startswith("(i < ") for k, p in g)
+            ctx.check(star and diff and inb, "pattern-match:false-only-on-component-mismatch", "return_table", hm.loc(r),
+                      "false only when a common component differs and the pattern's component is not '*'", "false returned under %s" % sorted(g, key=str))
+        else:
+            ctx.check(t == "true" and any(p is False and k.startswith("(i < ") for k, p in g), "pattern-match:true-after-all-common-components", "return_table", hm.loc(r),
+                      "true once all common components matched", "returns %s under %s" % (t, sorted(g, key=str)))
+    Xh = Expander(P, hm)
+    lh = [l for l in loops(hm) if l["stmt"] is not None]
+    hdr = Xh(hm.nodes[lh[0]["stmt"]]["c"]) if len(lh) == 1 and "c" in hm.nodes[lh[0]["stmt"]] else "?"
+    ctx.check(hdr in ("(var:i < std::min(this->cgroup_path_.size(), pattern.cgroup_path_.size()))", "(var:i < std::min(pattern.cgroup_path_.size(), this->cgroup_path_.size()))",
+                      "(i < std::min(this->cgroup_path_.size(), param:pattern.cgroup_path_.size()))", "(var:i < std::min(this->cgroup_path_.size(), param:pattern.cgroup_path_.size()))",
+                      "(var:i < std::min(param:pattern.cgroup_path_.size(), this->cgroup_path_.size()))"),
+              "pattern-match:over-common-prefix", "loop-shape", hm.loc(), "components are compared over the common prefix length (ancestor / descendant cases fall out as true)",
+              "loop bound is " + hdr)
     # ---- (3) resolveWildcard prefix filter
     rw = ctx.fn1("Oomd::CgroupPath::resolveWildcard")
     ctx.anchor(rw, "path", "ret")
